@@ -45,6 +45,19 @@ THEOREMS = [
     "PorepyVerif.C19.centroid_identity_3d",
     "PorepyVerif.C19.centroid_identity_3d_div",
     "PorepyVerif.C19.tet_centroid_identity_3d",
+    "PorepyVerif.C19.legacy_cell_identities",
+    "PorepyVerif.C19.legacy_outward",
+    "PorepyVerif.C19.legacy_volume_pos",
+    "PorepyVerif.C19.legacy_polygon_closed",
+    "PorepyVerif.C19.legacy_grid_normal",
+    "PorepyVerif.C19.embedded_cell_identities",
+    "PorepyVerif.C19.embedded_centroid_div",
+    "PorepyVerif.C19.line_cell_identities_embedded",
+    "PorepyVerif.C19.star_cell_volume_pos",
+    "PorepyVerif.C19.convex_cell_star",
+    "PorepyVerif.C19.convex_cell_volume_pos",
+    "PorepyVerif.C19.tet_cell_positive",
+    "PorepyVerif.C19.para_cell_positive",
 ]
 LEAN_MODULES = ["PorepyVerif.C19.Props"]
 AUDIT = "PorepyVerif/C19/Audit.lean"
@@ -61,14 +74,17 @@ RULE = ("grids of dimension 1-3 from CartGrid / TensorGrid / StructuredTriangleG
 TRUSTED = [
     "modelled, not verified: numpy/scipy glue of compute_geometry (sparse products, bincount, cross), np.mean(face_areas) in orientation "
     "check (2/3) is supplied to the model from the harness (it is a square root)",
-    "the legacy (non-oriented) 2-D path is executable in the model and compared, but the identities are proved for the oriented path only; "
-    "in the legacy path the model uses plane normal +z (the result does not depend on it unless the two sides of a face disagree)",
+    "the legacy (non-oriented) 2-D path: identities proved per cell under the code's own assumption (cell star-shaped about the temporary "
+    "centre, the two sides of every face agree on the flip: legacy_cell_identities, legacy_grid_normal); the model uses plane normal +z there "
+    "(the result does not depend on it unless the two sides of a face disagree)",
     "3-D: face centre and face area use |sub_normal| = |sub_normal . N| / |N| (exact for planar faces); non-planar faces: only normals and "
     "volumes are compared; the general 3-D theorems assume 'directed edges pair up' (closed surface, EdgePaired), planar star-shaped "
     "non-degenerate faces (PlanarStar) and, for the centroid identity, nodes in the face plane (NodesPlanar); these hypotheses are proved for "
     "tetrahedra and Cartesian hexahedra, for other polyhedra they are assumptions on the grid",
     "1-D: the unit tangent is carried as direction + squared length; the flip test is modelled for collinear nodes",
-    "embedded (non axis-aligned) 1-D / 2-D grids are covered by the oracle only (normalisation of the plane normal is a square root)",
+    "embedded 2-D grids: the model is the planar model followed by the rational rigid motion of the case (embedded_cell_identities proves the "
+    "identities for every orthogonal R); that the code's plane normal is +-R e_z (its normalisation is a square root) is tied by the comparison only; "
+    "embedded 1-D grids go through the 1-D model directly (direction + squared length)",
     "constructors: TensorGrid._create_2d_grid / _create_3d_grid are modelled cell by cell (tensorCells, tensorCells3: node order and signs of "
     "every face of every cell) and compared exactly; the other constructors enter through the topology of the real grid object that is "
     "handed to the model, plus the expectation that grids whose construction implies consistent loops take the oriented 2-D path",
@@ -208,8 +224,12 @@ def _tensor_tie(case):
 
 
 def _model_dim(case):
-    """which model op covers the case (None: oracle only)"""
-    return None if case.get("embedded") else case["dim"]
+    """which model op covers the case: 1, 2, 3, or "2e" = planar 2-D model followed by the rigid motion of the case
+    (embedded 1-D grids go to the 1-D model directly: it works on 3-D nodes); embedded cases always have a rational
+    orthogonal matrix in case["affine"]"""
+    if case.get("embedded"):
+        return 1 if case["dim"] == 1 else "2e"
+    return case["dim"]
 
 
 # ----------------------------------------------------------------------------- impl / model
@@ -248,6 +268,15 @@ def impl_run(case):
             "cell_centers": [[float(v) for v in g.cell_centers[:2, i]] for i in range(g.num_cells)],
             "z_zero": bool(np.all(g.face_normals[2] == 0) and np.all(g.face_centers[2] == g.nodes[2, 0]) and np.all(g.cell_centers[2] == g.nodes[2, 0])),
         })
+    elif md == "2e":
+        out.update({
+            "oriented": not legacy,
+            "face_len2": [float(a) ** 2 for a in g.face_areas],
+            "face_centers": [[float(v) for v in g.face_centers[:, i]] for i in range(g.num_faces)],
+            "face_normals": [[float(v) for v in g.face_normals[:, i]] for i in range(g.num_faces)],
+            "cell_volumes": [float(v) for v in g.cell_volumes],
+            "cell_centers": [[float(v) for v in g.cell_centers[:, i]] for i in range(g.num_cells)],
+        })
     elif md == 1:
         out.update({
             "face_centers": [[float(v) for v in g.face_centers[:, i]] for i in range(g.num_faces)],
@@ -281,12 +310,21 @@ def model_ops(case):
     if md is None:
         return ops
     try:
-        g = _build(case)
+        if md == "2e":
+            # the planar pre-image: same case without the rigid motion and the scale (both are applied by the model)
+            g = _build({k: v for k, v in case.items() if k not in ("affine", "embedded", "scale")})
+        else:
+            g = _build(case)
     except Exception:
         return ops
     faces, cells = _topology(g)
     X = g.nodes
-    if md == 2:
+    if md == "2e":
+        lens = [math.sqrt(float(X[0, e] - X[0, s]) ** 2 + float(X[1, e] - X[1, s]) ** 2) for s, e in faces]
+        ops.append({"op": "geom2e", "nodes": [[frac(X[0, i]), frac(X[1, i])] for i in range(X.shape[1])], "faces": faces, "cells": cells,
+                    "mean_len": frac(sum(lens) / max(1, len(lens))), "m": case["affine"]["m"], "b": case["affine"]["b"],
+                    "sc": frac(Fraction(2) ** int(case.get("scale", 0)))})
+    elif md == 2:
         lens = [math.sqrt(float(X[0, e] - X[0, s]) ** 2 + float(X[1, e] - X[1, s]) ** 2) for s, e in faces]
         ops.append({"op": "geom2", "nodes": [[frac(X[0, i]), frac(X[1, i])] for i in range(X.shape[1])], "faces": faces, "cells": cells,
                     "mean_len": frac(sum(lens) / max(1, len(lens)))})
@@ -312,7 +350,11 @@ def model_decode(outs, case):
     o = outs[k]
     if "err" in o:
         return o
-    if md == 2:
+    if md == "2e":
+        if any(c is None for c in o["cell_centers"]):
+            return {"err": "NonFinite"}
+        res.update(o)
+    elif md == 2:
         if any(c is None for c in o["cell_centers"]):
             return {"err": "NonFinite"}
         res.update(o)
@@ -677,7 +719,7 @@ def _gen_tri(rng, tier):
     elif r < 0.5:
         case["affine"] = _affine_embed(rng)
         case["embedded"] = True
-    if expect is not None and not case.get("embedded"):
+    if expect is not None:
         case["expect_oriented"] = expect
     return case
 
@@ -784,8 +826,7 @@ def _gen_polygon(rng, tier):
     elif r < 0.5:
         case["affine"] = _affine_embed(rng)
         case["embedded"] = True
-    if not case.get("embedded"):
-        case["expect_oriented"] = not legacy
+    case["expect_oriented"] = not legacy
     return case
 
 
@@ -974,8 +1015,7 @@ def _gen_case(rng, tier):
                 case["flip_faces"] = sorted(rng.sample(range(nf), rng.randint(1, max(1, nf // 3))))
             elif q < 0.55:  # sign-only flips of boundary-or-interior rows: loops break, legacy path, cells stay convex
                 case["flip_signs"] = sorted(rng.sample(range(nf), rng.randint(1, max(1, nf // 4))))
-        if not case.get("embedded"):
-            case["expect_oriented"] = not case.get("flip_signs")
+        case["expect_oriented"] = not case.get("flip_signs")
     elif r < 0.52:
         case = _gen_tri(rng, tier)
     elif r < 0.60:
@@ -1039,7 +1079,7 @@ def stats(cases, impl_outs):
         dims[str(c["dim"])] = dims.get(str(c["dim"]), 0) + 1
     return {"kinds": kinds, "dims": dims,
             "perturbed": sum(1 for c in cases if c.get("perturb")), "affine": sum(1 for c in cases if c.get("affine") and not c.get("embedded")),
-            "embedded_oracle_only": sum(1 for c in cases if c.get("embedded")), "reoriented_faces": sum(1 for c in cases if c.get("flip_faces")),
+            "embedded_via_rigid_motion": sum(1 for c in cases if c.get("embedded")), "reoriented_faces": sum(1 for c in cases if c.get("flip_faces")),
             "sign_only_flips": sum(1 for c in cases if c.get("flip_signs")), "nonplanar_3d": sum(1 for c in cases if not c.get("planar", True)),
             "nonconvex_cells": sum(1 for c in cases if not c.get("convex", True)), "islands": sum(1 for c in cases if c.get("islands")),
             "scaled": {str(k): sum(1 for c in cases if c.get("scale", 0) == k) for k in sorted(set(c.get("scale", 0) for c in cases))},
